@@ -157,6 +157,64 @@ class ReturnVar(ast.NodeTransformer):
         return node
 
 
+class ElseAfterJump(ast.NodeTransformer):
+    """`if c: ...; return/raise/continue/break` followed by REST  ->  `if c: ... else: REST`."""
+
+    def _fix(self, body: list[ast.stmt]) -> list[ast.stmt]:
+        for i, s in enumerate(body):
+            if isinstance(s, ast.If) and not s.orelse and s.body and isinstance(s.body[-1], (ast.Return, ast.Raise, ast.Continue, ast.Break)) and i + 1 < len(body):
+                rest = self._fix(body[i + 1:])
+                # declarations must stay at function level
+                if any(isinstance(r, (ast.Global, ast.Nonlocal)) for r in rest):
+                    continue
+                s.orelse = rest
+                return body[: i + 1]
+        return body
+
+    def generic_visit(self, node):
+        super().generic_visit(node)
+        for fld in ("body", "orelse", "finalbody"):
+            v = getattr(node, fld, None)
+            if isinstance(v, list) and v and isinstance(v[0], ast.stmt) and not isinstance(node, (ast.Module, ast.ClassDef)):
+                setattr(node, fld, self._fix(v))
+        return node
+
+
+class ReceiverAlias(ast.NodeTransformer):
+    """`self.app.<component>.<m>(...)` -> `_<component> = self.app.<component>` at the start of the function, calls go through the local."""
+
+    COMPONENTS = ("orchestrator", "broker", "state_backend", "trigger", "client_data_store")
+
+    def visit_FunctionDef(self, node):
+        self.generic_visit(node)
+        used: dict[str, str] = {}
+
+        class R(ast.NodeTransformer):
+            def visit_FunctionDef(s, n):  # nested scopes keep the attribute form
+                return n
+
+            visit_AsyncFunctionDef = visit_FunctionDef
+            visit_Lambda = visit_FunctionDef
+
+            def visit_Attribute(s, n):
+                s.generic_visit(n)
+                if n.attr in ReceiverAlias.COMPONENTS and isinstance(n.ctx, ast.Load) and isinstance(n.value, ast.Attribute) and n.value.attr == "app" and isinstance(n.value.value, ast.Name) and n.value.value.id == "self":
+                    used[n.attr] = f"_{n.attr}"
+                    return ast.copy_location(ast.Name(id=f"_{n.attr}", ctx=ast.Load()), n)
+                return n
+
+        if any(isinstance(x, (ast.Yield, ast.YieldFrom)) for x in ast.walk(node)):
+            pass
+        new_body = [R().visit(s) for s in node.body]
+        if used:
+            i = 1 if new_body and isinstance(new_body[0], ast.Expr) and isinstance(new_body[0].value, ast.Constant) and isinstance(new_body[0].value.value, str) else 0
+            binds = [ast.parse(f"{loc} = self.app.{comp}").body[0] for comp, loc in sorted(used.items())]
+            node.body = new_body[:i] + binds + new_body[i:]
+        return node
+
+    visit_AsyncFunctionDef = visit_FunctionDef
+
+
 def rewrite_tree(root: Path, rename: bool, mode: str = "") -> int:
     n = 0
     for f in list(root.rglob("*.py")):
@@ -178,6 +236,12 @@ def rewrite_tree(root: Path, rename: bool, mode: str = "") -> int:
             ast.fix_missing_locations(tree)
         if mode == "retvar":
             tree = ReturnVar().visit(tree)
+            ast.fix_missing_locations(tree)
+        if mode == "elseret":
+            tree = ElseAfterJump().visit(tree)
+            ast.fix_missing_locations(tree)
+        if mode == "recv":
+            tree = ReceiverAlias().visit(tree)
             ast.fix_missing_locations(tree)
         if mode == "flip":
             tree = BranchFlipper().visit(tree)
